@@ -13,8 +13,10 @@
 (*    leads there (PROG lines).  The driver replays each program on        *)
 (*    Container, LocalContainer and global() and the recorded histories    *)
 (*    go back through IocTrace.  VIEW merges idle states that differ only  *)
-(*    in the numbering of generations / instances, so the programs cover   *)
-(*    every transition of the abstract registry up to the length bound.    *)
+(*    in the numbering of generations / instances (it keeps, per key, the  *)
+(*    kind, the cell state, the dependencies and whether the registration  *)
+(*    has been resolved 0, 1 or more times), so the programs cover every   *)
+(*    transition of the abstract registry up to the length bound.          *)
 (*    Interchangeable types and names are used in canonical first-use      *)
 (*    order (SymClasses); the driver permutes them back.                   *)
 (***************************************************************************)
@@ -220,7 +222,6 @@ Keys_AB   == {<<"c0", "S0", "-">>, <<"c0", "S1", "-">>}
 Keys_ABQ  == {<<"c0", "S0", "-">>, <<"c0", "S1", "-">>, <<"c0", "Q0", "=a">>}
 Keys_T2N3 == {<<"c0", ty, nm>> : ty \in {"S0", "S1"}, nm \in {"-", "=a", "=b"}}
 Keys_SQN2 == {<<"c0", ty, nm>> : ty \in {"S0", "Q0"}, nm \in {"-", "=a"}}
-Keys_Deps == {<<"c0", "S0", "-">>, <<"c0", "S1", "-">>, <<"c0", "Q0", "-">>, <<"c0", "S0", "=a">>}
 Keys_C2   == {<<"c0", "S0", "-">>, <<"c1", "S0", "-">>, <<"c0", "S1", "-">>}
 Sym_None  == {}
 Sym_TN    == {<<"S0", "S1">>, <<"=a", "=b">>}
